@@ -9,7 +9,12 @@ PROP = dict(
           "the j-th present key, overwrite of the j-th present key, clear, default / sized construction HashMap(n), Set(n) with n in 1..600, "
           "Map(k,v), initializer lists, clone (Set: copy+dup), dup, read-only copy, Map::add / Set<<Set merges (also with itself), keys(), kv(), "
           "bulk insertion of 3..240 keys (thorough ..1800: two table growths of the default table) with strides 1/3/8/256/2048/-1/-256, "
-          "==/!= in both argument orders, 'rebuild' (the same contents inserted reversed / interleaved / rotated into a fresh container of "
+          "==/!= in both argument orders, 'conv' (Map<int,int> only: the converting constructors Map<String,int>(Map<int,int>), "
+          "Dic<int>(Map<int,int>), Dic<double>(Dic<int>) and Map<int,int>(Map<double,int>) with source keys k/2 that merge on truncation; the "
+          "result must be ascending in the target key order with every converted key found once, and stay so under overwrite / remove of "
+          "existing keys and == against the same contents built by plain insertions; for merging keys only length, strict ascent, "
+          "lookup/enumeration consistency and 'value is one of the merging source values' are asserted), 'clonemove' (two maps of equal "
+          "length differing in one key that carries the default value on both sides, then compared), 'rebuild' (the same contents inserted reversed / interleaved / rotated into a fresh container of "
           "another table size, then compared), clone-then-change-one-value / swap-one-member then compare; Set: <<, >>, contains(x), "
           "contains(set), containsAny, +, &, -, in(), notIn(), array(), Array conversion, construction from Array (with duplicates) and from "
           "initializer lists of 0..4 items. Keys come from adversarial pools: ints b+256j and b+2048j (one bucket in every table size up to "
